@@ -208,7 +208,26 @@ pub fn partner(r: &mut Rng, x: u128) -> u128 {
 
 /// Operand pairs for comparison-like operations: scaled coefficients equal or differing by one ulp.
 pub fn cmp_pair(r: &mut Rng) -> (u128, u128) {
-    match r.below(10) {
+    match r.below(12) {
+        10 => { // a zero-valued pattern (zero or non-canonical finite) against an extreme coefficient: each operand's own
+                // canonical-range test decides
+            let z = if r.chance(1, 2) { zero(r) } else { noncanonical_finite(r) };
+            let c = *r.pick(&[P34 - 1, P34 - 1, P34 - 2, P33, 1, (1u128 << 112), (1u128 << 113) - 1, P34]);
+            let y = if c >= P34 { ((r.chance(1, 2) as u128) << 127) | (((exponent(r) + 6176) as u128) << 113) | c } else { enc(r.chance(1, 2), c, exponent(r)) };
+            if r.chance(1, 2) { (z, y) } else { (y, z) }
+        }
+        11 => { // exponent gap at / next to the shortcut thresholds (32..35) with a coefficient that just compensates:
+                // x = d·10^g + δ at e, y = d at e + g
+            let g = 31 + r.below(5) as u32;
+            let dd = 1 + r.below(9) as u128;
+            let e = exponent(r).clamp(EMIN, EMAX - 40);
+            let target = dd.checked_mul(pow10(g.min(37))).unwrap_or(P34);
+            let delta: i128 = *r.pick(&[0i128, 1, -1, 1000, -1000]);
+            let cx = if target < P34 { ((target as i128 + delta).max(1) as u128).min(P34 - 1) } else { match r.below(3) { 0 => P34 - 1, 1 => P33, _ => coeff(r, 34) } };
+            let (s1, s2) = match r.below(4) { 0 | 1 => (false, false), 2 => (true, true), _ => (false, true) };
+            let (a, b) = (enc(s1, cx, e), enc(s2, dd, e + g as i32));
+            if r.chance(1, 2) { (a, b) } else { (b, a) }
+        }
         0 | 1 | 2 => { // same value, different cohort member (or off by one)
             let q = 1 + r.below(34) as u32;
             let c = coeff(r, q);
@@ -852,4 +871,86 @@ pub fn hk_word(r: &mut Rng) -> u64 {
         6 => 0xffff_ffff, 7 => 0x1_0000_0000, 8 => 0xffff_ffff_0000_0000, 9 => r.below(1 << 16),
         _ => r.next(),
     }
+}
+
+
+/// An operand of the same class as `x` in another encoding: another infinity (either sign, with or without junk bits), another NaN
+/// of the same kind, or — for a finite pattern — the same exponent written in another encoding form (ordinary canonical /
+/// coefficient ≥ 10^34 / large-coefficient "steering" form / canonical zero).  Two-operand routines decode each operand with its
+/// own copy of the field-extraction code; a slip in one copy shows only when the two operands use different forms.
+pub fn sibling(r: &mut Rng, x: u128) -> u128 {
+    let top = (x >> 123) & 15;
+    let sign = if r.chance(3, 4) { x & (1u128 << 127) } else { (r.chance(1, 2) as u128) << 127 };
+    if top == 15 {
+        if (x >> 122) & 1 == 0 {
+            // infinity
+            let junk = match r.below(3) { 0 => 0, 1 => r.u128() & ((1u128 << 64) - 1), _ => r.u128() & ((1u128 << 122) - 1) };
+            return sign | (0x78u128 << 120) | junk;
+        }
+        let n = nan(r);
+        return sign | (n & !(1u128 << 127) & !(1u128 << 121)) | (x & (1u128 << 121));
+    }
+    // exponent of x in whichever form x uses
+    let e = if (x >> 125) & 3 == 3 { (x >> 111) & 0x3fff } else { (x >> 113) & 0x3fff };
+    let e = if r.chance(1, 4) { (e + r.below(3) as u128).min(12287) } else { e };
+    match r.below(4) {
+        0 => sign | (e << 113) | (coeff_upto(r, 34) & ((1u128 << 113) - 1)),                          // ordinary
+        1 => sign | (e << 113) | (P34 + r.u128() % ((1u128 << 113) - P34)),                           // coefficient >= 10^34
+        2 => sign | (3u128 << 125) | (e << 111) | (r.u128() & ((1u128 << 111) - 1)),                  // steering form
+        _ => sign | (e << 113),                                                                       // canonical zero
+    }
+}
+
+/// remainder / fmod pairs with |x| next to |y|/2 (and next to |y|) at a chosen exponent gap g = e_y − e_x, 0 ≤ g ≤ 36, weighted
+/// to the gaps 32..36 where the routines stop scaling: y = c_y·10^g·10^e with a small c_y, x = (c_y·10^g)/2 + δ.
+pub fn rem_half_pair(r: &mut Rng) -> (u128, u128) {
+    let g = if r.chance(1, 2) { 30 + r.below(7) as u32 } else { r.below(37) as u32 };
+    let cy: u128 = *r.pick(&[1u128, 1, 2, 3, 5, 7, 9, 10, 11, 99, 101]);
+    let e = r.range(EMIN as i64, (EMAX - 40) as i64) as i32;
+    let full = cy.checked_mul(pow10(g.min(36)));
+    let target = match full { Some(f) => if r.chance(3, 4) { f / 2 } else { f }, None => P34 - 1 };
+    let delta: i128 = match r.below(7) { 0 => 0, 1 => 1, 2 => -1, 3 => r.range(2, 100000) as i128, 4 => -(r.range(2, 100000) as i128),
+        5 => (target / 10) as i128, _ => -((target / 10) as i128) };
+    let cx = ((target as i128 + delta).max(1) as u128).min(P34 - 1);
+    (enc(r.chance(1, 2), cx, e), enc(r.chance(1, 2), cy, e + g as i32))
+}
+
+
+/// Pairs (x, y) with e_y − e_x = g where the divisor aligned to x's quantum, c_y·10^g, sits on a 64-bit word boundary of the
+/// multi-word product the routines form: just above 2^128 (or 2^64), or with its low 128 (64) bits all zero
+/// (c_y = m·2^(64k−g), so that c_y·10^g = m·5^g·2^(64k)).  x is a full-size coefficient, so only the dropped high words decide.
+pub fn scaled_word_pair(r: &mut Rng) -> (u128, u128) {
+    let k: u32 = if r.chance(3, 4) { 2 } else { 1 };
+    let g = 1 + r.below(34) as u32;
+    let p = pow10(g);
+    let cy: u128 = if r.chance(1, 2) {
+        // just above the boundary: ceil(2^(64k) / 10^g) + small
+        let base = if k == 2 { (u128::MAX / p) + 1 } else { ((1u128 << 64) / p) + 1 };
+        base + *r.pick(&[0u128, 0, 1, 2, 5]) + if r.chance(1, 4) { r.below(1000) as u128 } else { 0 }
+    } else {
+        let sh = (64 * k).saturating_sub(g);
+        let m = 1 + r.below(1 << 10) as u128;
+        if sh < 113 { m << sh } else { 1u128 << 112 }
+    };
+    let cy = cy.clamp(1, P34 - 1);
+    let e = r.range(EMIN as i64, (EMAX - 40) as i64) as i32;
+    let cx = match r.below(3) { 0 => P34 - 1 - r.below(1000) as u128, 1 => coeff(r, 34), _ => { let q = 33 + r.below(2) as u32; coeff(r, q) } };
+    (enc(r.chance(1, 2), cx, e), enc(r.chance(1, 2), cy, e + g as i32))
+}
+
+
+/// Two members of one cohort (equal value, different quantum), the wider one using the full 113-bit coefficient field
+/// (coefficient ≥ 2^111 ≈ 2.6·10^33, or ≥ 2^112) — where a mask that is two bits short, or a 64-bit word split, shows.
+pub fn cohort_pair_wide(r: &mut Rng) -> (u128, u128) {
+    let t = 1 + r.below(33) as u32;                       // trailing zeros of the wide member
+    let lo = if r.chance(1, 2) { 1u128 << 111 } else { 1u128 << 112 };
+    let unit = pow10(t);
+    let m = (lo / unit) + 1 + (r.u128() % (((P34 - 1 - lo) / unit).max(1)));
+    let wide = (m * unit).min(P34 - 1);
+    let wide = wide - wide % unit;
+    let e = r.range(EMIN as i64, (EMAX - 40) as i64) as i32;
+    let strip = 1 + r.below(t as u64) as u32;
+    let neg = r.chance(1, 2);
+    let (a, b) = (enc(neg, wide, e), enc(neg, wide / pow10(strip), e + strip as i32));
+    if r.chance(1, 2) { (a, b) } else { (b, a) }
 }
